@@ -142,6 +142,12 @@ class DictDecoder:
                 continue
 
             if var.wrapper:
+                if self.config.fail_on_unknown_properties and len(value) > 1:
+                    unknown = next(k for k in value if k != var.local_name)
+                    raise ParserError(
+                        f"Unknown property {clazz.__qualname__}.{key}.{unknown}"
+                    )
+
                 value = value[var.local_name]
 
             value = self.bind_value(meta, var, value)
